@@ -249,21 +249,64 @@ def schedWords : List String := ["nable to proceed", "is not available", "llegal
 
 def containsSub (s sub : String) : Bool := (s.splitOn sub).length > 1
 
+/-- drop everything between double quotes (glyph names etc.) -/
+def stripQuoted (s : String) : String :=
+  let rec go (cs : List Char) (inq : Bool) (acc : List Char) : List Char :=
+    match cs with
+    | [] => acc.reverse
+    | c :: rest => if c == '"' then go rest (!inq) acc else if inq then go rest inq acc else go rest inq (c :: acc)
+  String.ofList (go s.toList false [])
+
+/-- maximal alphabetic tokens -/
+def alphaTokens (s : String) : List String :=
+  (s.split (fun c => !c.isAlpha)).toList.map (·.toString) |>.filter (fun t => !t.isEmpty)
+
+/-- the work-id variant (`GlyphOrder`, `Glyph`, `GlyfFragment` …) named in a piece of a panic message -/
+def idWord (piece : String) (last : Bool) : String :=
+  let toks := (alphaTokens (stripQuoted piece)).filter fun t =>
+    t != "Fe" && t != "Be" && (t.front.isUpper)
+  let toks := toks.filter fun t => !(["A", "Illegal", "Multiple", "Repeat"].contains t)
+  ((if last then toks.getLast? else toks.head?).getD "unknown")
+
+/-- kind of scheduling failure and the id it names, e.g. `not-available:GlyphOrder` -/
+def failureClass (msg : String) : Option String :=
+  let before (m : String) := (msg.splitOn m).headD ""
+  let after (m : String) := ((msg.splitOn m).drop 1).headD ""
+  if containsSub msg " is not available" then some s!"not-available:{idWord (before " is not available") true}"
+  else if containsSub msg "nable to proceed" then some "unable-to-proceed"
+  else if containsSub msg "Illegal read of" then some s!"illegal-read:{idWord (after "Illegal read of") false}"
+  else if containsSub msg "Illegal write of" then some s!"illegal-write:{idWord (after "Illegal write of") false}"
+  else if containsSub msg "Multiple completions of" then some s!"completed-twice:{idWord (after "Multiple completions of") false}"
+  else if containsSub msg "completed but isn't pending" then some s!"completed-twice:{idWord (before "completed but isn't pending") true}"
+  else if containsSub msg "Repeat signals for completion of" then some s!"completed-twice:{idWord (after "Repeat signals for completion of") false}"
+  else if schedWords.any (containsSub msg ·) then some "sched-failure"
+  else none
+
 def handle : Handler := fun s =>
   let r : Option Verdict := do
     let source ← (← s.field1? "source").asString?
     let threads ← (← s.field1? "threads").asNat?
     let status ← s.field? "status"
     let srcTag := "src_" ++ sanitize source
+    let feats := ((s.field? "feats").getD []).filterMap Sexp.asAtom?
+    let generated := feats.contains "generated"
+    let featTags := feats.map (fun f => "f_" ++ f)
+    let schedTag := match s.field1? "delay" with
+      | some (.atom d) => if d == "none" then (if (s.field1? "jitter") == some (.atom "none") then "sched_undisturbed" else "sched_jitter")
+                          else if (s.field1? "jitter") == some (.atom "none") then s!"sched_{d}" else s!"sched_{d}+jitter"
+      | _ => "sched_unknown"
     match status with
     | .atom "ok" :: _ => pure ()
     | .atom "missing" :: _ => return { corr := none, oracle := none, tags := [srcTag, "missing"] }
     | .atom kind :: rest =>
       -- a valid source failed to build: a scheduling failure is a violation of the property itself
       let msg := (rest.head?.bind Sexp.asString?).getD ""
-      let sched := schedWords.any (containsSub msg ·) || kind == "crash" || kind == "panic"
-      return { corr := none, oracle := if sched then some false else none, nontrivial := false,
-               cls := if sched then "sched-failure" else "", tags := [srcTag, s!"build-{kind}"], detail := sanitize (msg.take 200).toString }
+      let fc := failureClass msg
+      let fc := if fc.isNone && (kind == "crash") then some "crash" else fc
+      -- any error of a generated (valid by construction) source is a failure; of a fixture only a scheduling failure
+      let fc := if fc.isNone && generated then some "generated-source-build-error" else fc
+      return { corr := none, oracle := if fc.isSome then some false else none, nontrivial := false,
+               cls := fc.getD "", tags := [srcTag, schedTag, s!"build-{kind}"] ++ featTags, detail := sanitize (msg.take 300).toString }
     | _ => none
     let idsS ← s.field? "ids"
     let idsL ← idsS.mapM fun
@@ -338,10 +381,11 @@ def handle : Handler := fun s =>
       (if problems.isEmpty then "" else s!"log: {"; ".intercalate (problems.take 3)}; ") ++
       (if scriptSame then "" else s!"script differs from the reference run: {scriptDiff}; ")
     let tags := [srcTag, s!"threads{threads}", s!"jobs_{bucket nJobs}", s!"spawned{nSpawned}", s!"pairs_{bucket cs.length}",
-                 (if (s.field1? "delay") == some (.atom "lag") then "lag-schedule"
-                  else if (s.field1? "jitter") == some (.atom "none") then "nojitter" else "jitter")] ++
+                 schedTag] ++ featTags ++
       (if scriptSame then [] else ["script-varies"]) ++ (if outSame then [] else ["output-varies"]) ++
-      (if (counts.getD 3 0) > 0 then ["has-skips"] else [])
+      (if (counts.getD 3 0) > 0 then ["has-skips"] else []) ++
+      (if ids.any (fun i => i.disc == "BeGlyfFragment" && i.key != "GlyfFragment(.notdef)" &&
+            sc.spawns.any (fun p => p.2.id = i)) then ["glyphorder-created-glyph"] else [])
     some { corr := some corr, oracle := some oracle, nontrivial := nSpawned > 0, cls := cls, tags := tags,
            detail := (detail.replace "\n" " ") }
   r.getD (badInput "c02: cannot parse case")
